@@ -1035,6 +1035,11 @@ class APIConnection:
 
     async def disconnect(self) -> None:
         """Disconnect from the API."""
+        # The disconnect is expected from the moment it is requested: if the
+        # connect that is still in flight completes and the connection is
+        # lost before we get to send the disconnect request, the stop must
+        # not be reported as unexpected.
+        self._expected_disconnect = True
         if self._finish_connect_future is not None:
             # Try to wait for the handshake to finish so we can send
             # a disconnect request. If it doesn't finish in time
@@ -1054,7 +1059,6 @@ class APIConnection:
                         self.log_name,
                     )
 
-        self._expected_disconnect = True
         if self._handshake_complete:
             # We still want to send a disconnect request even
             # if the hello phase isn't finished to ensure we
